@@ -125,6 +125,22 @@ fn site_for(t: &Template, v: &exec::Violation) -> String {
 }
 
 fn hole_class(t: &Template, p: &[usize], tags: &[String]) -> String {
+    if t.generator == "shape-arithmetic" {
+        // chains: the set of operator kinds (order and constants are in the replayed program)
+        let n = p.len();
+        let mut ops: Vec<String> = (1..n - 1).filter(|d| p[*d] != 0).map(|d| tags[d].clone()).collect();
+        ops.sort();
+        ops.dedup();
+        let mut parts = Vec::new();
+        if p[0] != 0 {
+            parts.push(format!("start={}", tags[0]));
+        }
+        parts.push(format!("ops={{{}}}", ops.join(", ")));
+        if p[n - 1] != 0 {
+            parts.push(format!("terminal={}", tags[n - 1]));
+        }
+        return parts.join(", ");
+    }
     let top = (0..p.len()).filter(|d| p[*d] != 0).map(|d| t.axes[d].in_sig).max().unwrap_or(0);
     let parts: Vec<String> =
         (0..p.len()).filter(|d| p[*d] != 0 && t.axes[*d].in_sig == top).map(|d| format!("{}={}", t.axes[d].name, tags[d])).collect();
